@@ -2205,8 +2205,10 @@ func DecodeQueuedState(buf []byte) (*QueuedState, error) {
 	q := &QueuedState{}
 
 	// Routes
+	// Entry counts come from the wire: cap pre-allocation by what the buffer can
+	// hold (every entry has a 2-byte length prefix).
 	routeCount := int(r.readUint16())
-	q.Routes = make([]RouteAdvertise, 0, routeCount)
+	q.Routes = make([]RouteAdvertise, 0, min(routeCount, r.remaining()/2))
 	for i := 0; i < routeCount && r.err == nil; i++ {
 		length := int(r.readUint16())
 		data := r.readBytes(length)
@@ -2222,7 +2224,7 @@ func DecodeQueuedState(buf []byte) (*QueuedState, error) {
 
 	// Withdraws
 	withdrawCount := int(r.readUint16())
-	q.Withdraws = make([]RouteWithdraw, 0, withdrawCount)
+	q.Withdraws = make([]RouteWithdraw, 0, min(withdrawCount, r.remaining()/2))
 	for i := 0; i < withdrawCount && r.err == nil; i++ {
 		length := int(r.readUint16())
 		data := r.readBytes(length)
@@ -2238,7 +2240,7 @@ func DecodeQueuedState(buf []byte) (*QueuedState, error) {
 
 	// NodeInfos
 	nodeInfoCount := int(r.readUint16())
-	q.NodeInfos = make([]NodeInfoAdvertise, 0, nodeInfoCount)
+	q.NodeInfos = make([]NodeInfoAdvertise, 0, min(nodeInfoCount, r.remaining()/2))
 	for i := 0; i < nodeInfoCount && r.err == nil; i++ {
 		length := int(r.readUint16())
 		data := r.readBytes(length)
